@@ -45,6 +45,8 @@ def main():
             from props import pyrt
             ctx.driver = leanio.Driver()       # a check may have pointed ctx.driver at a private copy it has removed again
             pyrt.check_functions(ctx, leanio.BRIDGE_FUNCS[prop], ctx.n(60, 1500))
+            if "address_str" in leanio.BRIDGE_FUNCS[prop]:
+                pyrt.check_address(ctx, ctx.n(400, 6000))       # the composed Address model vs real Address / Naming objects
         return ctx.finish(search=getattr(mod, "search", None))
     except Exception as e:
         traceback.print_exc()
